@@ -22,18 +22,18 @@ def edge_facts(fn, ev):
                 if tgt == t["otherwise"]:
                     continue
                 if len(vals) == 1:
-                    out.setdefault((b, tgt), set()).add(("eq", term, vals[0]))
+                    out.setdefault((b, tgt), set()).add(("eq", term, bool(vals[0]) if is_bool else vals[0]))
             ow = t["otherwise"]
             case_vals = [v for v, tg in t["cases"] if tg != ow]
             fs = out.setdefault((b, ow), set())
             if is_bool and case_vals == [0]:
-                fs.add(("eq", term, 1))
+                fs.add(("eq", term, True))
             else:
                 for v in case_vals:
                     fs.add(("ne", term, v))
         elif t["k"] == "assert":
             term = ev.op(t["cond"], (b, "term"))
-            out.setdefault((b, t["tgt"]), set()).add(("eq", term, 1 if t["expected"] else 0))
+            out.setdefault((b, t["tgt"]), set()).add(("eq", term, bool(t["expected"])))
     return out
 
 
@@ -76,10 +76,10 @@ def relational(fact):
     `Not`, comparison terms, PartialEq/PartialOrd calls and is_some/is_none/is_ok/is_err/is_empty predicates."""
     kind, term, val = fact
     truth = None
-    if kind == "eq" and val in (0, 1):
-        truth = bool(val)
-    elif kind == "ne" and val in (0, 1):
-        truth = not bool(val)
+    if kind == "eq" and isinstance(val, bool):
+        truth = val
+    elif kind == "ne" and isinstance(val, bool):
+        truth = not val
     out = []
     if truth is None:
         if kind == "eq":
